@@ -11,6 +11,10 @@ EXPLANATION = ("theorems: get_message accepts iff payload (14|28, 26|40-12 digit
 ASSUMPTIONS = ["char::to_digit(16) is ASCII-only: multi-byte UTF-8 characters never yield digits (modelled on bytes)"]
 
 DECOR = ["*", "@", ";", ":", ",", " ", "\t", "\r", "g", "z", "G", "-", "é", "✈", " ", "x", "."]
+# characters beyond U+00FF whose code point ends in the byte of an ASCII hex digit or letter (Cyrillic а..й / с..ц, Latin
+# Extended ı İ ł Ł, fullwidth digits and letters, mathematical digits): none of them is a hexadecimal digit
+LOOKALIKE = [chr(hi + b) for hi in (0x0100, 0x0400, 0x0600, 0x2000, 0x4E00, 0xFF00) for b in list(range(0x30, 0x3A)) + list(range(0x41, 0x47)) + list(range(0x61, 0x67))
+             if not (0xD800 <= hi + b <= 0xDFFF)] + [chr(0xFF10 + i) for i in range(10)] + [chr(0xFF21 + i) for i in range(6)] + [chr(0x1D7CE + i) for i in range(10)]
 
 
 def decorate_heavy(r, digits):
@@ -68,6 +72,28 @@ def gen(seed, tier):
         good = [g.any_frame(r.choice(pool)) for _ in range(r.randint(1, 5))]
         bad = [g.junk_line() for _ in range(r.randint(1, 5))]
         cases.append(H("C02-h%d" % i, {}, [seg(0, good), seg(0, bad)]))
+    # look-alike characters: as decoration of a valid frame (must not change it) and in place of one of its digits (the line
+    # then has one digit too few and is no frame)
+    for _ in range(40 * reps):
+        f = g.any_frame()
+        ch = r.choice(LOOKALIKE)
+        i = r.randrange(len(f) + 1)
+        add((f[:i] + ch + f[i:]).encode("utf-8"))
+        i = r.randrange(len(f))
+        add((f[:i] + ch + f[i + 1:]).encode("utf-8"))
+        add(("".join(r.choice(LOOKALIKE) for _ in range(r.choice([14, 28, 26, 40])))).encode("utf-8"))
+    # bookkeeping: lines that are no frames must not tick the expiry sweep -- stale rows stay while only such lines arrive
+    for i in range(6 if tier == "quick" else 60):
+        pool = r.sample(ICAOS, 3)
+        good = [g.f_df17(a, g.me_airpos()) for a in pool]
+        bad = []
+        for _ in range(r.choice([13, 14, 25, 40])):
+            j = g.junk_line().replace(b"\n", b"")
+            bad.append(j if pyspec.frame_of_line(j) is None else b"#")
+        o = {"d": r.choice([0, 1, 2])}
+        if i % 2:
+            o["U"] = 1
+        cases.append(H("C02-k%d" % i, o, [seg(0, good), seg(r.choice([2500, 3000, 10000]), bad)]))
     # context independence: whether a line is a frame depends on its own digits only, whatever kind of line
     # (skipped at whichever stage of the reader loop) came immediately before it in the same file
     def contexts():
@@ -134,8 +160,15 @@ def oracle(parts, outcome, obs):
     segs = pyspec.case_segments(parts)
     if all(pyspec.frame_of_line(l) is None for l in segs[1][1]):
         o = obs.split("#")
-        if len(o) == 2 and o[0] != o[1]:
-            return "table changed by lines that are not frames"
+        if len(o) == 2:
+            AGES = ("ts", "ct0", "ct1", "pt", "tt", "ht", "b5t")
+            ra, rb = pyspec.rows_of(o[0]), pyspec.rows_of(o[1])
+            if set(ra) != set(rb):
+                return "lines that are not frames changed the set of aircraft: %s -> %s" % (sorted("%06X" % a for a in ra), sorted("%06X" % a for a in rb))
+            for a in ra:
+                ch = [f for f in ra[a] if f not in AGES and ra[a][f] != rb[a].get(f)]
+                if ch:
+                    return "lines that are not frames changed %s of %06X" % (ch, a)
     return None
 
 
